@@ -385,6 +385,11 @@ fn rng_range(seed: u64, lo: u64, hi: u64) -> u64 {
 pub fn run(p: &Params, prefix: &str) -> Report {
     let mut rep = Report::new(prefix);
     if let Some(r) = &p.replay {
+        if super::sys::replay(r, &mut rep) {
+            return rep;
+        }
+    }
+    if let Some(r) = &p.replay {
         let seed: u64 = r["replay"]["scenario_seed"].as_str().unwrap().parse().unwrap();
         if r["replay"]["half"] == "service" {
             let mut urng = Rng::new(p.shard_seed(0x909));
@@ -408,5 +413,8 @@ pub fn run(p: &Params, prefix: &str) -> Report {
         let seed = p.shard_seed(i);
         crate::util::guarded(&mut rep, seed, |rep| scenario(seed, rep, prefix));
     }
+    // full stack: lookups of an unmodified Discv5 through a simulated network
+    let focus = if prefix == "C09" { super::sys::Focus::C09 } else { super::sys::Focus::C10 };
+    super::sys::run_lookups(p, focus, 0x5C09_0000, 1600, 100_000, &mut rep);
     rep
 }
